@@ -176,7 +176,14 @@ func runC16(t *testing.T, seed int64, n int, out *Out) {
 			}
 			return o
 		}
+		// an account governance has just removed from the feeder set: it tries to switch itself back on, then to feed
+		reviveSet, reviveFeed := "", ""
 		pickSigner := func() string {
+			if reviveFeed != "" {
+				a := reviveFeed
+				reviveFeed = ""
+				return a
+			}
 			if r.Intn(10) < 6 {
 				return addrs[r.Intn(2)] // the two accounts that usually are feeders
 			}
@@ -228,6 +235,17 @@ func runC16(t *testing.T, seed int64, n int, out *Out) {
 			c := r.Intn(100)
 			if boundary && c < 40 {
 				c = 60 + r.Intn(30) // direct sets at special timestamps and boundary end-blocks
+			}
+			if reviveFeed != "" {
+				c = r.Intn(34) // a feed (single or multiple) signed by the removed account
+			}
+			if reviveSet != "" {
+				a := reviveSet
+				reviveSet, reviveFeed = "", a
+				msg := &otypes.MsgSetPriceFeeder{Feeder: a, IsActive: true}
+				res, _ := callTx(ctx, func(c sdk.Context) error { _, err := ms.SetPriceFeeder(c, msg); return err })
+				emit(J{"op": "setfeeder", "feeder": a, "active": true, "res": res, "fobs": feederDump()})
+				continue
 			}
 			switch {
 			case c < 22: // FeedPrice from a feeder or a non-feeder
@@ -301,6 +319,9 @@ func runC16(t *testing.T, seed int64, n int, out *Out) {
 					msg := &otypes.MsgRemovePriceFeeders{Authority: auth, Feeders: []string{a}}
 					res, _ := callTx(ctx, func(c sdk.Context) error { _, err := ms.RemovePriceFeeders(c, msg); return err })
 					emit(J{"op": "rmfeeders", "auth": auth, "feeders": msg.Feeders, "res": res, "fobs": feederDump()})
+					if res == "ok" && r.Intn(2) == 0 {
+						reviveSet = a
+					}
 				}
 			case c < 52: // asset info
 				d := c16Denoms[r.Intn(len(c16Denoms)-1)] // "unone" never gets an info
